@@ -1256,6 +1256,7 @@ def term_to_ineq(tms):
     """Convert a list inequalities into a tableau."""
     vs = dict()
     i = 0
+    used = {v.name for tm in tms for v in tm.get_vars()}  # the fresh names must not clash with the given ones
     tableau = []
     new_tms = [] # store the HOL form of standard tableau
     for tm in tms:
@@ -1263,6 +1264,8 @@ def term_to_ineq(tms):
         line = []
         for coeff, v in summands:
             if v not in vs:
+                while "x_" + str(i) in used:
+                    i += 1
                 new_var = "x_" + str(i)
                 i += 1
                 vs[v] = new_var
